@@ -24,6 +24,7 @@ import numpy as np
 
 from harness.vlib.util import f2b, b2f, fs, close, call
 
+GUARD = dict(flag=False)       # set by run(): does nnls.py guard the normaliser? (translator)
 SIG_NNLS_VMAX = 'C11:invert_regularised_nnls:max(b)<=0:normalisation-divides-by-zero'
 
 
@@ -150,7 +151,8 @@ def flat(W):
 
 def sart_reference(W, b, x0, sweeps, relax, L=None, beta=0.0):
     """the documented rule, vectorised: x <- max(0, x + w/W_(+,j) * sum_k W_kj/W_(k,+) (b_k - (Wx)_k) - beta (Lx)_j).
-    Returns the iterates' final value and the list of convergence values."""
+    Returns the final iterate, the list of convergence values and the largest magnitude of any term that entered an
+    update (the scale against which cancellation residues are judged)."""
     W = np.asarray(W, float); b = np.asarray(b, float)
     x = np.array(x0, float)
     dens = W.sum(axis=0)
@@ -158,18 +160,26 @@ def sart_reference(W, b, x0, sweeps, relax, L=None, beta=0.0):
     live = length != 0
     conv = []
     bb = float(b @ b)
+    mag = float(np.max(np.abs(x), initial=0.0))
+    aW = np.abs(W)
     for _ in range(sweeps):
         res = np.zeros(len(b))
         res[live] = (b[live] - (W @ x)[live]) / length[live]
+        ares = np.zeros(len(b))
+        ares[live] = (np.abs(b[live]) + (aW @ np.abs(x))[live]) / np.abs(length[live])
         back = W.T @ res
-        upd = np.where(dens > 0, relax * back / np.where(dens > 0, dens, 1.0), 0.0)
+        safe = np.where(dens > 0, dens, 1.0)
+        upd = np.where(dens > 0, relax * back / safe, 0.0)
+        mag = max(mag, float(np.max(np.where(dens > 0, abs(relax) * (aW.T @ ares) / safe, 0.0), initial=0.0)))
         xn = x + upd
         if L is not None:
             xn = xn - beta * (np.asarray(L, float) @ x)
+            mag = max(mag, float(np.max(abs(beta) * (np.abs(np.asarray(L, float)) @ np.abs(x)), initial=0.0)))
         x = np.maximum(xn, 0.0)
+        mag = max(mag, float(np.max(np.abs(x), initial=0.0)))
         y = W @ x
         conv.append((bb - float(y @ y)) / bb)
-    return x, conv
+    return x, conv, mag
 
 
 def stop_rule_ok(conv, max_it, tol):
@@ -191,7 +201,7 @@ def stop_rule_ok(conv, max_it, tol):
     return True, '', margin
 
 
-def vec_close(a, b, rel=1e-9):
+def vec_close(a, b, rel=1e-9, floor=0.0):
     a = np.asarray(a, float); b = np.asarray(b, float)
     if a.shape != b.shape:
         return False
@@ -200,7 +210,7 @@ def vec_close(a, b, rel=1e-9):
     if not (np.all(np.isfinite(a)) and np.all(np.isfinite(b))):
         return bool(np.array_equal(a, b, equal_nan=True))
     scale = max(float(np.max(np.abs(a))), float(np.max(np.abs(b))))
-    return bool(np.all(np.abs(a - b) <= rel * np.maximum(np.abs(a), np.abs(b)) + rel * scale))
+    return bool(np.all(np.abs(a - b) <= rel * np.maximum(np.abs(a), np.abs(b)) + rel * scale + floor))
 
 
 def conv_close(a, b, rel=1e-9):
@@ -280,8 +290,9 @@ def sart_oracles(ctx, c):
             ctx.count('stop-rule-guard-band-skipped')
         else:
             ctx.fail('C11:%s:stop-rule' % fn, why, d)
-    xr, convr = sart_reference(c['W'], c['b'], c['x0'], len(conv), c['relax'], c['L'], c['beta'])
-    if not vec_close(x, xr, 1e-8):
+    xr, convr, mag = sart_reference(c['W'], c['b'], c['x0'], len(conv), c['relax'], c['L'], c['beta'])
+    c['mag'] = mag
+    if not vec_close(x, xr, 1e-8, 1e-9 * mag):
         ctx.fail('C11:%s:update-rule' % fn, 'returned solution is not iterate %d of the documented rule: %r vs %r' % (len(conv), x.tolist(), xr.tolist()), d)
     elif not conv_close(conv, convr, 1e-8):
         ctx.fail('C11:%s:convergence-list' % fn, 'convergence list differs from (|b|^2-|Wx|^2)/|b|^2 of the iterates: %r vs %r' % (conv, convr), d)
@@ -292,6 +303,7 @@ def sart_stream(ctx):
     outs = ctx.driver([c['line'] for c in cases])
     for c, o in zip(cases, outs):
         ctx.traces += 1
+        sart_oracles(ctx, c)
         t = o.split()
         st, res, d = c['st'], c['res'], c['desc']
         name = 'C11 stream ' + d['func']
@@ -313,12 +325,11 @@ def sart_stream(ctx):
                 else:
                     ctx.disagreements += 1
                     ctx.broke('correspondence', name, dict(what='iteration count', model=N, implementation=len(conv), input=d))
-            elif not (vec_close(x, xm) and conv_close(conv, cm)):
+            elif not (vec_close(x, xm, 1e-9, 1e-10 * c.get('mag', 0.0)) and conv_close(conv, cm)):
                 ctx.disagreements += 1
                 ctx.broke('correspondence', name, dict(what='values', model_x=xm, impl_x=[float(v) for v in x], model_conv=cm, impl_conv=conv, input=d))
             ctx.count('iterations:%s' % ('0' if N == 0 else '1' if N == 1 else '2-9' if N < 10 else '10-99' if N < 100 else '100+'))
             ctx.count('stopped:' + ('max_iterations' if N == c['maxit'] else 'convergence'))
-        sart_oracles(ctx, c)
 
 
 # ------------------------------------------------------------------------------------------------- exact stream
@@ -562,9 +573,9 @@ def nnls_oracle(ctx, rng, Wa, ba, alpha, La, st, res, spycall, desc, zclass=None
     if not vmax > 0:
         # The minimiser exists (x = 0 when W >= 0 and b <= 0); the wrapper must return one.  The as-is model divides by vmax = 0
         # here (Props: nnls_norm_degenerate; nnls_wrapper_correct assumes 0 < vmax), so this class is judged by S alone and not
-        # compared with the model — whichever guard a fix introduces, only the KKT oracle below decides.
-        verdict = None
-        ctx.count('nnls:max(b)<=0 (S only)')
+        # compared with the model — unless the translator recognises the guard in the source (then the model is the guarded one).
+        verdict = 'compare' if GUARD['flag'] else None
+        ctx.count('nnls:max(b)<=0 ' + ('(compared with the guarded model)' if GUARD['flag'] else '(S only)'))
         if st != 'ok' or not np.all(np.isfinite(res[0])):
             ctx.fail(SIG_NNLS_VMAX,
                      'invert_regularised_nnls with max(b) = %r <= 0 (%s measurement): %s — the wrapper divides the system by '
@@ -825,6 +836,8 @@ def run(ctx):
                         'mutation of a caller-supplied initial_guess array (it is overwritten and returned) is outside the property text; recorded in the histogram',
                         'stop decisions within 1e-9 of conv_tol are skipped in the random stream (counted) and hit exactly in the dyadic stream',
                         'OpenCL SART variant (needs pyopencl, absent) is out of scope']
+    from harness.translators import inversion as tr
+    ctx.extra['nnls_vmax_guarded_in_source'] = GUARD['flag'] = tr.translate()
     ctx.lean_check(['Cherab.Props.C11'], 'Cherab/Audit/C11.lean')
     for f in _corpus():
         _replay_case(ctx, json.load(open(f)).get('replay', {}), from_corpus=True)
